@@ -10,6 +10,7 @@ import (
 
 	"github.com/itchyny/rassemble-go"
 
+	"github.com/coreruleset/crs-toolchain/v2/internal/verifhook"
 	"github.com/coreruleset/crs-toolchain/v2/regex"
 )
 
@@ -106,6 +107,7 @@ func NewCmdLine(ctx *Context, cmdType CmdLineType) *CmdLine {
 
 // ProcessLine applies the processors logic to a single line
 func (c *CmdLine) ProcessLine(line string) error {
+	verifhook.Emit("cmd.word", "empty", len(line) == 0)
 	if len(line) != 0 {
 		processed := c.regexpStr(line)
 		c.proc.lines = append(c.proc.lines, processed)
